@@ -88,21 +88,16 @@ Theorem C05_try_write_never_overtakes_reachable :
 Proof. intros. exact (proj1 (final_inv beh blk o sa pw ops)). Qed.
 Print Assumptions C05_try_write_never_overtakes_reachable.
 
-(* Shutdown.  Full clause "no write callback after the shutdown callback" is
-   refuted by the faithful model (uv_write + uv_shutdown from inside a write
-   callback: uv__stream_io drains right after uv__write_callbacks, which only
-   runs the callbacks that were queued when it started). *)
-Theorem C05_shutdown_last_refuted :
-  exists beh ops, ~ shutdown_cb_last (trace (exec beh (init false [] 0%Z []) ops)).
-Proof. exact shutdown_last_refuted. Qed.
-Print Assumptions C05_shutdown_last_refuted.
-
-(* What does hold: uv_write after a successful uv_shutdown is refused
-   (UV_EPIPE, or UV_EBADF once closed); nothing is written after shutdown(2)
-   and the write queue is empty from then on; after the shutdown callback
-   nothing is written and no uv_write is accepted - so a write callback that
-   comes later reports a request that was already finished. *)
-Theorem C05_shutdown_last_partial :
+(* Shutdown (model of the code after the repair of uv__stream_io, which now
+   drains only when write_queue and write_completed_queue are both empty):
+   uv_write after a successful uv_shutdown is refused (UV_EPIPE, or UV_EBADF
+   once the handle is closed); nothing is written after shutdown(2) and the
+   write queue is empty from then on (end-of-stream after the last byte); after
+   the shutdown callback there is no write callback any more, nothing is
+   written and no uv_write is accepted - together with
+   C05_cb_exactly_once_in_order: every write accepted before uv_shutdown has had
+   its callback when the shutdown callback runs. *)
+Theorem C05_shutdown_last :
   forall beh blk o sa pw ops,
   let s := exec beh (init blk o sa pw) ops in
   (forall l1 l2, trace s = l1 ++ EShut 0%Z :: l2 ->
@@ -110,9 +105,21 @@ Theorem C05_shutdown_last_partial :
   (forall a l1 l2, trace s = l1 ++ ESysShut a :: l2 -> forall i off n, ~ In (EChunk i off n) l2) /\
   (forall a, In (ESysShut a) (trace s) -> wq s = []) /\
   (forall c l1 l2, trace s = l1 ++ EShutCb c :: l2 ->
-     (forall i off n, ~ In (EChunk i off n) l2) /\ (forall id, ~ In (ERet id 0%Z) l2)).
-Proof. exact shutdown_last_partial. Qed.
-Print Assumptions C05_shutdown_last_partial.
+     cb_ids l2 = [] /\ (forall i off n, ~ In (EChunk i off n) l2) /\ (forall id, ~ In (ERet id 0%Z) l2)).
+Proof. exact shutdown_last. Qed.
+Print Assumptions C05_shutdown_last.
+
+(* the callback-order clause on its own, and the input that refuted it before the repair *)
+Theorem C05_shutdown_cb_last :
+  forall beh blk o sa pw ops, shutdown_cb_last (trace (exec beh (init blk o sa pw) ops)).
+Proof. exact shutdown_cb_last_holds. Qed.
+Print Assumptions C05_shutdown_cb_last.
+
+Example C05_shutdown_last_former_witness :
+  trace (exec beh_refute (init false [] 0%Z []) [OWrite [1]; ORun; ORun]) =
+    [EWrite 0 1; EChunk 0 0 1; ERet 0 0; EQ 0; ECb 0 0 0; EWrite 1 2; EChunk 1 0 2; ERet 1 0;
+     EShut 0; ECb 1 0 0; ESysShut 0; EShutCb 0; EQ 0; EQ 0].
+Proof. vm_compute. reflexivity. Qed.
 
 (* A non-empty write queue on a stream that is not closing always has POLLOUT
    armed or its watcher in the pending queue. *)
